@@ -275,6 +275,12 @@ class Machine:
         raise Undecidable(f"`{ast.unparse(node)[:80]}` on {a!r}, {b!r}")
 
     def binop(self, op, a, b, node):
+        if isinstance(op, ast.Add) and type(a) is type(b) and isinstance(a, (tuple, list)):
+            return a + b
+        if isinstance(op, ast.Add) and isinstance(a, str) and isinstance(b, str):
+            return a + b
+        if isinstance(op, ast.Mult) and isinstance(a, (tuple, list)) and isinstance(b, int) and not isinstance(b, bool):
+            return a * b
         num = lambda x: isinstance(x, (int, float)) and not isinstance(x, bool)
         if num(a) and num(b):
             try:
